@@ -60,6 +60,7 @@ struct vsbx_events
   uint64_t frees = 0;
   uint64_t last_freed = 0;
   uint64_t mallocs = 0;
+  uint64_t last_malloc_size = 0; // bytes RLBox asked for in the most recent allocation request
   uintptr_t last_outside_ptr = 0;
   // arguments of the most recent membership query (what RLBox range-checked)
   uintptr_t last_same_p1 = 0, last_same_p2 = 0;
@@ -370,6 +371,7 @@ protected:
   // ---- memory
   inline T_PointerType impl_malloc_in_sandbox(size_t sz)
   {
+    vsbx_ev.last_malloc_size = sz;
     // Not created (never, failed creation, or destroyed): RLBox must not ask at all.  A backend in that state owes
     // nothing, so the model answers with a non-null value: a request that leaks through becomes visible to the caller.
     if (base == 0) {
